@@ -49,7 +49,13 @@ def boundary_shapes():
     out = []
     pairs = [("1.2", "1.3"), ("1.2", "1.3.0"), ("1.2.0", "1.3"), ("1.2.0", "1.3.0"), ("1.2", "1.2.1.0"), ("1", "2"), ("1", "2.0"), ("1.0", "2"), ("1.0", "2.0.0"),
              ("3.6.0", "3.7.0"), ("3.6", "3.7.0"), ("1!1.2", "1!1.3.0"), ("1.2.3", "1.3"), ("1.2.3", "1.3.0"), ("0", "1"), ("1.9", "1.10"), ("1.9.0", "1.10.0"),
-             ("2.0", "3.0"), ("2", "3.0.0"), ("1.2", "1.4"), ("1.2.0", "1.2.1"), ("1.2.0", "1.2.1.0")]
+             ("2.0", "3.0"), ("2", "3.0.0"), ("1.2", "1.4"), ("1.2.0", "1.2.1"), ("1.2.0", "1.2.1.0"),
+             # an upper bound one segment longer than the lower one, ending in 0 but with a non-zero segment in between (no `~=` form: round-9 C04 seed)
+             ("1.2", "2.5.0"), ("2.3.1", "2.4.5.0"), ("1.2", "2.0.1.0"), ("0.9", "1.1.0"), ("3.6", "4.7.0"), ("1!1.2", "1!2.5.0"),
+             # upper bounds that are dev / pre-releases of the next series (round-9 C06 seed)
+             ("3.8", "4.0.dev0"), ("1.2.0", "1.3.dev0"), ("1.2.0", "1.3.0.dev3"), ("2!1.2.0", "2!1.3.dev1"), ("1.2.0", "1.3a1"), ("1.2", "2.0rc1"),
+             # the open finding D3 (post-release upper bound of the next series rendered `~=`), catalogued so that it is shown on every run whatever the random trees hit
+             ("1.2", "2.0.post1"), ("2.3.1", "2.4.0.post1")]
     for a, b2 in pairs:
         for lo in (">=", ">"):
             for hi in ("<", "<="):
